@@ -16,7 +16,7 @@ ROUND5 = {
  "C07": " Also decided: every %-format of the package binds its arguments and a single conversion is never handed a value that can be a tuple (C07-21, reaching definitions + return expressions of callees); every instance "
         "attribute read through self is assigned by its class's constructor on every path (C07-22); an exit reported by a callee is handed on by every Controller method (C07-19b) and the main loop never goes round with an "
         "exit in hand (C07-19c); range validators accept exactly lower <= value <= upper (18-row decision table, C07-5c) and every parameter that fails its check is reported (C07-5d).",
- "C10": " The atoms of the truth tables are labelled with the writes that can reach their evaluation point, so a boolean local computed before a counter is updated and a same-looking test made after it are different propositions.",
+ "C10": " The atoms of the truth tables are labelled with the writes that can reach their evaluation point, so a boolean local computed before a counter is updated and a same-looking test made after it are different propositions; last_successful_run is only ever assigned a run number (C10-4b).",
  "C11": " Also decided: the saved Jacobian and its labels never alias the live arrays (C11-2b).",
  "C16": " The affine executor follows every path through the if statements of shift_base (invariant broken on every path = violation, on some = undecided); a local re-based by the incumbent's relative position is followed on every path by shift_base of the same vector (C16-3b).",
  "C17": " Also decided: a record added to the set is stored where the point count puts it -- np.insert at npt() read before the count changes, or an append under a test that the set is full (C17-9); a swap of two records re-points the incumbent index both ways (C17-5b).",
